@@ -267,6 +267,18 @@ static void esx_push_state(uint64_t h1, uint64_t h2, uint32_t parent, uint16_t o
     r->nstates++;
 }
 
+static void esx_root_probe(uint64_t idx, void *ctx) {
+    (void)idx;
+    const struct esx_model *m = (const struct esx_model *)ctx;
+    esx_cur = m;
+    esx_failed = 0;
+    uint16_t none[1];
+    esx_make_token(m, none, 0, -1);
+    m->reset();
+    (void)m->canon(esx_canon_buf, sizeof(esx_canon_buf));
+    if (m->teardown) m->teardown();
+}
+
 /* Explore model m. Returns number of states. */
 static uint64_t esx_run(const struct esx_model *m) {
     struct esx_run_state *r = &esx_rs;
@@ -286,7 +298,18 @@ static uint64_t esx_run(const struct esx_model *m) {
         }
         unlink(path);
     }
-    /* initial state, evaluated in an isolated child first so that a crash in reset() is attributed */
+    /* initial state, evaluated in an isolated child first so that a crash or a hang in reset() / teardown() (library code
+     * runs there too: constructors, destructors, idle checks) is reported as a violation of the empty history instead of
+     * taking the exploring process down */
+    uint64_t esx_viol_before_root = v_counter_value("violations_raw");
+    if (v_run_isolated(m->name, esx_root_probe, 0, (void *)m, 20) || v_counter_value("violations_raw") > esx_viol_before_root) {
+        v_exhaustive = 0;
+        v_out("INFO model %s: the initial state already fails, nothing explored", m->name);
+        for (int w = 0; w < v_nworkers; ++w) close(r->fd[w]);
+        free(r->seen.k);
+        memset(r, 0, sizeof(*r));
+        return 0;
+    }
     {
         esx_failed = 0;
         uint16_t none[1];
